@@ -797,5 +797,13 @@ func GetNodeRawAllocatableFromNode(node *corev1.Node) corev1.ResourceList {
 		klog.V(3).Infof("Node %s has no raw-allocatable annotation, using node status allocatable", node.Name)
 		return allocatable
 	}
-	return rawAllocatable
+	// the annotation only records the amplified dimensions (cpu, memory); the others keep the status value
+	merged := allocatable.DeepCopy()
+	if merged == nil {
+		merged = corev1.ResourceList{}
+	}
+	for name, quantity := range rawAllocatable {
+		merged[name] = quantity
+	}
+	return merged
 }
